@@ -110,6 +110,136 @@ def doc_model_correspondence(rep, cases, rng, quick):
     rep.coverage['document_model_correspondence'] = dict(n, documents=len(docs), with_a_machine_for_every_element=len(idx), differences=bad)
 
 
+def float_oracle(t):
+    """what Python's float() makes of a text: None (ValueError) or (kind, numerator, denominator, repr)"""
+    from fractions import Fraction
+    import math
+    try:
+        f = float(t)
+    except ValueError:
+        return None
+    r = repr(f)
+    if math.isnan(f):
+        return ('n', 0, 1, r)
+    if math.isinf(f):
+        return ('i', 1 if f > 0 else -1, 1, r)
+    q = Fraction(f)
+    return ('e' if 'e' in r else 'p', q.numerator, q.denominator, r)
+
+
+def vnode(n, reserved):
+    """generator node -> the model's document: text ('' when absent), attributes [[name, value]] without the names outside the model
+    (namespaced, with an underscore, or colliding with a Python-side name: C04's model covers those), children"""
+    return {'tag': n['tag'], 'text': n['text'] or '', 'attrs': [[a[0], a[1]] for a in n['attrs'] if ':' not in a[0] and '_' not in a[0] and a[0] not in reserved],
+            'kids': [vnode(k, reserved) for k in n['kids']]}
+
+
+def vxml(d, indent=0):
+    from xml.sax.saxutils import escape, quoteattr
+    pad = '  ' * indent
+    attrs = ''.join(' %s=%s' % (n, quoteattr(t)) for n, t in d['attrs'])
+    if not d['kids']:
+        return '%s<%s%s>%s</%s>\n' % (pad, d['tag'], attrs, escape(d['text']), d['tag'])
+    return '%s<%s%s>%s\n%s%s</%s>\n' % (pad, d['tag'], attrs, escape(d['text']), ''.join(vxml(k, indent + 1) for k in d['kids']), pad, d['tag'])
+
+
+def vtree_of_text(text):
+    import xml.etree.ElementTree as ET
+
+    def sh(e):
+        return [e.tag, (e.text or '').strip() if len(e) else (e.text or ''), [[k, v] for k, v in e.attrib.items()], [sh(c) for c in e]]
+    return sh(ET.fromstring(text))
+
+
+def vtree_of_node(d):
+    return [d['tag'], d['text'].strip() if d['kids'] else d['text'], [list(a) for a in d['attrs']], [vtree_of_node(k) for k in d['kids']]]
+
+
+def value_mutant(d, rng, ctypes):
+    """a copy with one change to a text or an attribute: the model and the library must refuse it at the same step or emit the same document.
+    (Numerals only Python's int() reads - underscores, non-ASCII digits - are outside the model's int(): the library re-spells '1_0' as '10'.)"""
+    m = copy.deepcopy(d)
+    nodes = []
+
+    def walk(n):
+        nodes.append(n)
+        for k in n['kids']:
+            walk(k)
+    walk(m)
+    n = rng.choice(nodes)
+    k = rng.randrange(7)
+    if k == 0:
+        n['attrs'].append(['no-such-attribute', 'v'])
+    elif k == 1 and n['attrs']:
+        a = rng.choice(n['attrs'])
+        a[1] = rng.choice(['xx invalid', '', ' ' + a[1], a[1] + ' ', '-1', '1.5', '1e3', '007', 'yes', 'TRUE', '0', 'nan', '+3', ' 4'])
+    elif k == 2 and n['attrs']:
+        del n['attrs'][rng.randrange(len(n['attrs']))]           # possibly a required one: the final check must refuse
+    elif k == 3:
+        n['text'] = rng.choice(['xx invalid', ' ' + n['text'] + ' ', '12', '1.0', '-0', '+5', 'inf', n['text'] + '\n', 'C ', 'yes', '1e2', '00'])
+    elif k == 4 and n['attrs']:
+        n['attrs'].reverse()
+    elif k == 5:
+        n['text'] = ''
+    else:
+        withk = [x for x in nodes if x['kids']]
+        if withk:
+            x = rng.choice(withk)
+            del x['kids'][rng.randrange(len(x['kids']))]
+    return m
+
+
+def doc_value_correspondence(rep, cases, rng, quick, g):
+    """the extracted document model WITH text and attributes (Model/PDoc.v, DocVal.v, DocValTables.v: vparse then vemit) against parse_musicxml +
+    to_string: same refusal step, same emitted document (elements, texts, attributes in order); where the document meets the premise of
+    C09_document_values the library must give back exactly the input"""
+    from . import extract
+    reserved = set(g['lib']['properties'])
+    base = [vnode(c, reserved) for c in cases]
+    docs = list(base) + [value_mutant(d, rng, None) for d in rng.sample(base, min(len(base), 700 if quick else 7000))]
+    floats = {}
+
+    def collect(d):
+        for t in [d['text'].strip()] + [a[1] for a in d['attrs']] + [a[1].strip() for a in d['attrs']]:
+            if t not in floats:
+                floats[t] = float_oracle(t)
+        for k in d['kids']:
+            collect(k)
+    for d in docs:
+        collect(d)
+    m = extract.Model()
+    try:
+        mo = m.run_vdocs(docs, floats)
+    finally:
+        m.close()
+    idx = [i for i, r in enumerate(mo) if r[0] != 'NOMACHINE']
+    _, ri = docs_mod.run_docs(xml=[vxml(docs[i]) for i in idx], xml_tags=[docs[i]['tag'] for i in idx])
+    n = {'OK': 0, 'NOPARSE': 0, 'NOEMIT': 0, 'premise_of_the_theorem_met': 0}
+    bad = 0
+    diffs = []
+    for i, r in zip(idx, ri):
+        prem, model = mo[i][0], mo[i][1:]
+        if 'exc' in r:
+            impl = ('NOPARSE',) if r['step'] == 'parse' else ('NOEMIT',)
+        else:
+            impl = ('OK', vtree_of_text(r['s']))
+        n[model[0]] += 1
+        n['premise_of_the_theorem_met'] += 1 if prem else 0
+        key = None
+        if impl != tuple(model):
+            key = 'model %s, implementation %s' % (str(model)[:300], str(impl)[:300])
+        elif prem and impl != ('OK', vtree_of_node(docs[i])):
+            key = 'the document meets the premise of C09_document_values but is not given back unchanged: %s' % str(impl)[:300]
+        if key:
+            bad += 1
+            diffs.append(docs[i]['tag'] + ': ' + key[:160])
+            if bad <= 3:
+                rep.violation('document model with values and implementation disagree on <%s>: %s' % (docs[i]['tag'], key),
+                              {'correspondence': 'parse_musicxml + to_string <-> DocValTables.vparse / vemit (elements, text, attributes)', 'document': vxml(docs[i])[:3000],
+                               'model': mo[i], 'implementation': impl, 'implementation_detail': {k: str(v)[:300] for k, v in r.items()}}, found_input=False)
+    rep.coverage['document_value_model_correspondence'] = dict(n, documents=len(docs), with_a_machine_for_every_element=len(idx), differences=bad, distinct_texts=len(floats), first_differences=diffs[:25])
+
+
 def mutate(node, rng):
     """returns (mutated copy, description) - each mutation adds something the output must keep or the parser must refuse"""
     d = copy.deepcopy(node)
@@ -238,6 +368,7 @@ def run(rep):
         else:
             n_kept += 1
     doc_model_correspondence(rep, cases, rng, quick)
+    doc_value_correspondence(rep, cases, rng, quick, g)
     sizes = [docgen.size(c) for c in cases]
     rep.coverage.update({'evaluations': len(texts) + len(samples) + len(muts), 'distinct_nontrivial': sum(1 for c in cases if docgen.size(c) >= 3) + len(muts),
                          'traces_validated_against_impl': len(texts) + len(samples) + len(muts), 'valid_documents': len(texts), 'read_without_loss': n_ok,
